@@ -35,6 +35,10 @@ TInit == chain = EmptyChains /\ val = NoVals /\ lastOp = [op |-> "init", k |-> 0
 TNext == /\ l <= NT /\ l' = l + 1 /\ lastOp' = lastOp
          /\ IF Ev.op = "reset" THEN chain' = EmptyChains /\ val' = NoVals /\ skipping' = FALSE /\ UNCHANGED <<nconf, ncmp>>
             ELSE IF skipping THEN UNCHANGED <<chain, val, skipping, nconf, ncmp>>
+            ELSE IF Ev.op = "ctor" THEN
+                 \* constructor under allocation failure: a failed constructor leaves nothing allocated (C15)
+                 IF Ev.live = 0 \/ "leak" \notin Owned THEN UNCHANGED <<chain, val, skipping, nconf, ncmp>>
+                 ELSE PrintT("REJECT " \o ToJson([l |-> l, why |-> {"leak"}, ev |-> Ev, exp |-> "constructor leaked"])) /\ skipping' = TRUE /\ UNCHANGED <<chain, val, nconf, ncmp>>
             ELSE IF Ev.op \in {"crash", "timeout"} THEN
                  Reject({Ev.op, "result"}, "no action admits this event") /\ skipping' = TRUE /\ UNCHANGED <<chain, val, nconf, ncmp>>
             ELSE IF Why \cap (Owned \cup {"result", "state", "enomem"}) = {} THEN
